@@ -563,6 +563,13 @@ class Lib:
                 if isinstance(i, SymOpt):
                     I.oblige("%s/safety/index-not-none" % ctx.speckey, z3.Not(i.is_none), 'safety')
                     return self.getitem_val(ctx, cont, i.val)
+            if idx[0] == 'tuple' and len(idx[1]) == 2 and all(ix[0] == 'index' and isinstance(ix[1], int) for ix in idx[1]) \
+                    and isinstance(cont, list) and cont and all(isinstance(r, (list, tuple)) for r in cont):
+                i, j = idx[1][0][1], idx[1][1][1]
+                return cont[i][j]
+            if idx[0] == 'tuple' and len(idx[1]) == 2 and idx[1][0][0] == 'slice' and idx[1][0][1:] == (None, None, None) and idx[1][1][0] == 'index' \
+                    and isinstance(idx[1][1][1], int) and isinstance(cont, list) and cont and all(isinstance(r, (list, tuple)) for r in cont):
+                return RowVal([r[idx[1][1][1]] for r in cont])
             if idx[0] == 'slice':
                 _, lo, hi, st = idx
                 if all(x is None or isinstance(x, int) for x in (lo, hi, st)):
